@@ -311,7 +311,7 @@ func (a *c10) needsStore(fn *ssa.Function) bool {
 		if _, isGo := call.Instr.(*ssa.Go); isGo {
 			continue
 		}
-		callee := call.Common.StaticCallee()
+		callee := core.Callee(call.Common)
 		if callee == nil {
 			if mc, ok := call.Common.Value.(*ssa.MakeClosure); ok {
 				callee, _ = mc.Fn.(*ssa.Function)
@@ -396,7 +396,7 @@ func (a *c10) innermostWitness(fn *ssa.Function) string {
 	for i := 0; i < 6; i++ {
 		var next *ssa.Function
 		for _, call := range core.Calls(cur) {
-			callee := call.Common.StaticCallee()
+			callee := core.Callee(call.Common)
 			if callee != nil && a.needs[callee] == 2 && !seen[callee] {
 				next = callee
 				break
@@ -427,7 +427,7 @@ func (a *c10) mutates(fn *ssa.Function, seen map[*ssa.Function]bool) bool {
 		return true
 	}
 	for _, call := range core.Calls(fn) {
-		callee := call.Common.StaticCallee()
+		callee := core.Callee(call.Common)
 		if callee == nil {
 			if mc, ok := call.Common.Value.(*ssa.MakeClosure); ok {
 				callee, _ = mc.Fn.(*ssa.Function)
@@ -772,7 +772,7 @@ func (a *c10) conflictRemoval() {
 	}
 	nSites, nLoop := 0, 0
 	for _, call := range core.Calls(fn) {
-		callee := call.Common.StaticCallee()
+		callee := core.Callee(call.Common)
 		if callee == nil || !a.mutatesField(callee, "leases", map[*ssa.Function]bool{}) {
 			continue
 		}
@@ -797,7 +797,7 @@ func (a *c10) conflictRemoval() {
 	for _, caller := range a.fns {
 		var rm []core.Call
 		for _, call := range core.Calls(caller) {
-			if call.Common.StaticCallee() == fn {
+			if core.SameFn(core.Callee(call.Common), fn) {
 				rm = append(rm, call)
 			}
 		}
@@ -808,7 +808,7 @@ func (a *c10) conflictRemoval() {
 		isAdd := core.IsCallTo(false, "(*dhcpd.v4Server).addLease")
 		isRm := func(in ssa.Instruction) bool {
 			c, ok := in.(*ssa.Call)
-			return ok && c.Common().StaticCallee() == fn
+			return ok && core.SameFn(core.Callee(c.Common()), fn)
 		}
 		found, tr, _ := core.Reach(core.Query{From: []core.Point{core.Entry(caller)}, Target: isAdd, Avoid: isRm})
 		var det []string
@@ -832,7 +832,7 @@ func (a *c10) mutatesField(fn *ssa.Function, field string, seen map[*ssa.Functio
 		}
 	}
 	for _, call := range core.Calls(fn) {
-		if sc := call.Common.StaticCallee(); sc != nil && core.PkgOf(sc) == "dhcpd" && a.mutatesField(sc, field, seen) {
+		if sc := core.Callee(call.Common); sc != nil && core.PkgOf(sc) == "dhcpd" && a.mutatesField(sc, field, seen) {
 			return true
 		}
 	}
